@@ -36,12 +36,10 @@ Definition as_formatted_text (t : str) : str := as_formatted_lines (splitlines t
 (* one continuation line of debcon.from_formatted_lines *)
 Definition decode_line (l : str) : str :=
   let l := rstrip l in
-  match l with
-  | 32 :: 32 :: _ => tl l                     (* verbatim: line[1:] *)
-  | [32; 46] => []                            (* blank-line marker *)
-  | 32 :: 46 :: _ => tl l                     (* " .x": kept as ".x" *)
-  | _ => strip l
-  end.
+  if startswith [32; 32] l then tl l            (* verbatim: line[1:] *)
+  else if str_eqb l [32; 46] then []            (* blank-line marker *)
+  else if startswith [32; 46] l then tl l       (* " .x": kept as ".x" *)
+  else strip l.
 
 Definition from_formatted_lines (ls : list str) : str :=
   match ls with
